@@ -102,8 +102,10 @@ struct Plan {
   status_mode: u8,     // 0 Strict, 1 SkipUnsupported, 2 SkipAll
   fail_fast: bool,
   rich: bool,          // use the rich generator for the remaining optional fields
+  nbf_unrepresentable: Option<i64>, // an nbf outside years 0000-9999 next to a representable iat: the issuance date is not recoverable from nbf, never acceptable
   exp_unrepresentable: Option<i64>, // an exp claim outside years 0000-9999: neither 'no expiration' nor a date the returned credential can carry
   expiry_in_vc_only: bool, // carry the expiration as vc.expirationDate without an exp claim (a form foreign issuers produce)
+  wall_clock: bool,        // leave both date bounds unset: the library then uses the current time
   iat: Option<i64>,        // an additional `iat` claim at nbf + this many seconds (nbf stays the issuance date)
 }
 
@@ -133,8 +135,10 @@ impl Plan {
       status_mode: rng.below(3) as u8,
       fail_fast: rng.bool(),
       rich: rng.chance(1, 3),
+      nbf_unrepresentable: None,
       exp_unrepresentable: None,
       expiry_in_vc_only: false,
+      wall_clock: false,
       iat: *rng.pick(&[None, None, Some(-2_000_000_000i64), Some(-1), Some(3), Some(2_000_000_000)]),
     }
   }
@@ -283,6 +287,9 @@ fn build(rng: &mut Rng, p: &Plan) -> Built {
     1 => "did:example:someone-else",
     2 => "https://issuer.example.edu/issuers/14",
     4 => "did:example:ISSUER", // differs from the document id in letter case only: another DID
+    5 => "did:example:issuer#k1", // DID URLs of the signer are not its DID
+    6 => "did:example:issuer?versionId=1",
+    7 => "did:example:issuer/issuers/14",
     _ => ISSUER,
   };
   let issuance = BOUND_ISS + p.issuance_delta;
@@ -352,6 +359,10 @@ fn build(rng: &mut Rng, p: &Plan) -> Built {
   if let Some(x) = p.exp_unrepresentable {
     claims_map.insert("exp".into(), json!(x));
   }
+  if let Some(x) = p.nbf_unrepresentable {
+    claims_map.insert("nbf".into(), json!(x));
+    claims_map.insert("iat".into(), json!(issuance));
+  }
   if let Some(d) = p.iat {
     claims_map.insert("iat".into(), json!(issuance + d));
   }
@@ -409,7 +420,7 @@ fn build(rng: &mut Rng, p: &Plan) -> Built {
     let good = jwt(&header, &claims, &signer);
     let sig_seg = good.rsplit('.').next().unwrap().to_string();
     let mut altered = claims.clone();
-    altered["nbf"] = json!(claims["nbf"].as_i64().unwrap() - 1);
+    altered["nbf"] = json!(claims["nbf"].as_i64().unwrap().checked_sub(1).unwrap_or(0));
     jwt_with_sig(&header, &altered, &vh::b64::url_decode(&sig_seg).unwrap())
   } else {
     jwt(&header, &claims, &signer)
@@ -432,9 +443,11 @@ fn build(rng: &mut Rng, p: &Plan) -> Built {
     4 => vo = vo.method_id(DIDUrl::parse(format!("{}#kf", ISSUER)).unwrap()),
     _ => {}
   }
-  let mut o = JwtCredentialValidationOptions::new()
-    .latest_issuance_date(Timestamp::from_unix(BOUND_ISS).unwrap())
-    .earliest_expiry_date(Timestamp::from_unix(BOUND_EXP).unwrap())
+  let mut o = JwtCredentialValidationOptions::new();
+  if !p.wall_clock {
+    o = o.latest_issuance_date(Timestamp::from_unix(BOUND_ISS).unwrap()).earliest_expiry_date(Timestamp::from_unix(BOUND_EXP).unwrap());
+  }
+  let mut o = o
     .status_check(match p.status_mode {
       1 => StatusCheck::SkipUnsupported,
       2 => StatusCheck::SkipAll,
@@ -452,8 +465,10 @@ fn build(rng: &mut Rng, p: &Plan) -> Built {
   // instead of through the builder; the member names are written out by the harness.
   if rng.chance(1, 4) {
     let mut j = Map::new();
-    j.insert("earliestExpiryDate".into(), json!(credgen::rfc3339(BOUND_EXP)));
-    j.insert("latestIssuanceDate".into(), json!(credgen::rfc3339(BOUND_ISS)));
+    if !p.wall_clock {
+      j.insert("earliestExpiryDate".into(), json!(credgen::rfc3339(BOUND_EXP)));
+      j.insert("latestIssuanceDate".into(), json!(credgen::rfc3339(BOUND_ISS)));
+    }
     j.insert("status".into(), json!(p.status_mode.min(2)));
     if p.holder_mode != 0 {
       j.insert("subjectHolderRelationship".into(), json!([if p.holder_is_subject { subject } else { "did:example:another-holder" }, p.holder_mode - 1]));
@@ -490,7 +505,7 @@ fn mutate_one(rng: &mut Rng, p: &mut Plan, which: u64) {
     2 => p.method_id_override = 2 + rng.below(3) as u8,
     3 => p.scope = 1 + rng.below(6) as u8,
     4 => p.kid = 4,
-    5 => p.issuer_claim = *rng.pick(&[1u8, 2, 4, 4]),
+    5 => p.issuer_claim = *rng.pick(&[1u8, 2, 4, 4, 5, 6, 7]),
     6 => {
       p.nonce_hdr = rng.below(3) as u8;
       p.nonce_opt = (p.nonce_hdr + 1 + rng.below(2) as u8) % 3;
@@ -526,6 +541,10 @@ fn mutate_one(rng: &mut Rng, p: &mut Plan, which: u64) {
     13 => {
       // legal scope that contains the method
       p.scope = if p.method == 0 { *rng.pick(&[1u8, 2, 5]) } else { 3 };
+    }
+    17 => {
+      p.iat = None;
+      p.nbf_unrepresentable = Some(*rng.pick(&[-62_167_219_201i64, i64::MIN, 253_402_300_800, i64::MAX, 253_402_300_799 + 86_400]));
     }
     16 => {
       p.expiry = None;
@@ -567,7 +586,7 @@ impl Cx {
       u_false.clear();
     }
     // an exp outside years 0000-9999 is either in the past of every bound or cannot be carried by the returned credential: never acceptable
-    let unrepresentable = p.exp_unrepresentable.is_some();
+    let unrepresentable = p.exp_unrepresentable.is_some() || p.nbf_unrepresentable.is_some();
     let expect_accept = s_false.is_empty() && u_false.is_empty() && !unrepresentable;
     // an expiration carried only inside vc may be refused as inconsistent; if accepted it must not be dropped
     let either = p.expiry_in_vc_only && p.expiry.is_some();
@@ -590,7 +609,7 @@ impl Cx {
       Ok(Ok(decoded)) => {
         self.rep.inc("accepted");
         if !expect_accept {
-          let why = s_false.first().map(|s| s.to_string()).unwrap_or_else(|| u_false.iter().next().map(|u| format!("{:?}", u)).unwrap_or_else(|| "exp-unrepresentable".into()));
+          let why = s_false.first().map(|s| s.to_string()).unwrap_or_else(|| u_false.iter().next().map(|u| format!("{:?}", u)).unwrap_or_else(|| if p.nbf_unrepresentable.is_some() { "nbf-unrepresentable".into() } else { "exp-unrepresentable".into() }));
           self.rep.violation(&format!("accepted-although-false:{}", why), &format!("credential accepted although these conditions are false: {:?} {:?}", s_false, u_false), case.clone());
         }
         // the credential returned is the one that was signed
@@ -619,7 +638,7 @@ impl Cx {
       }
       Ok(Err(_)) if unrepresentable => {
         self.rep.inc("rejected");
-        self.rep.inc("rejected:exp-unrepresentable");
+        self.rep.inc("rejected:date-unrepresentable");
       }
       Ok(Err(err)) => {
         self.rep.inc("rejected");
@@ -660,6 +679,53 @@ impl Cx {
             let tag = if let Some(m) = missing.first() { format!("missing:{:?}", m) } else { format!("spurious:{:?}", extra.first().unwrap()) };
             self.rep.violation(&format!("all-errors-set:{}", tag), &format!("AllErrors returned concerns {:?}, falsified conditions are {:?}", got, u_false), case.clone());
           }
+        }
+      }
+    }
+  }
+
+  /// Both date bounds left unset: the configured bound is then the time of validation. Judged only when the verdict
+  /// cannot depend on how long the call took (issuance still ahead of the clock after the call returned / already
+  /// behind it before the call started).
+  fn wall_clock_defaults(&mut self, rng: &mut Rng) {
+    self.rep.eval();
+    let mut p = Plan::all_good(rng);
+    p.wall_clock = true;
+    p.iat = None;
+    let d_iss = *rng.pick(&[-86_400i64, -30, 8, 15, 25, 60, 3_600, 86_400]);
+    let d_exp: Option<i64> = *rng.pick(&[None, None, Some(-86_400i64), Some(-20), Some(60), Some(86_400)]);
+    let before = Timestamp::now_utc().to_unix();
+    p.issuance_delta = before + d_iss - BOUND_ISS;
+    p.expiry = d_exp.map(|e| before + e - BOUND_EXP);
+    let b = build(rng, &p);
+    let validator = JwtCredentialValidator::with_signature_verifier(EdDSAJwsVerifier::default());
+    let jwt_obj = Jwt::new(b.token.clone());
+    let fail_fast = if p.fail_fast { FailFast::FirstError } else { FailFast::AllErrors };
+    let res = catch(|| validator.validate::<_, Object>(&jwt_obj, &self.doc, &b.options, fail_fast).map(|_| ()).map_err(|e| e.validation_errors.iter().map(|e| <&'static str>::from(e)).collect::<Vec<_>>()));
+    let after = Timestamp::now_utc().to_unix();
+    let (nbf, exp) = (before + d_iss, d_exp.map(|e| before + e));
+    let iss_false = nbf > after;
+    let iss_true = nbf <= before;
+    let exp_false = exp.map(|e| e < before).unwrap_or(false);
+    let exp_true = exp.map(|e| e >= after).unwrap_or(true);
+    let case = json!({"plan": format!("{:?}", p), "token": b.token, "clock_before": before, "clock_after": after, "nbf": nbf, "exp": exp, "bounds": "unset (current time)"});
+    self.rep.distinct("nontrivial", &format!("wall-clock|iss{}|exp{:?}", d_iss.signum(), d_exp.map(|e| e.signum())));
+    match res {
+      Err(pn) => self.rep.violation(&format!("validate-panic@{}", pn.file_only()), &pn.msg, case),
+      Ok(Ok(())) => {
+        self.rep.inc("accepted");
+        self.rep.inc("wall_clock_accepted");
+        if iss_false {
+          self.rep.violation("accepted-although-false:issuance-after-current-time", &format!("issued {} s after the time of validation, bound unset, accepted", nbf - after), case);
+        } else if exp_false {
+          self.rep.violation("accepted-although-false:expired-before-current-time", "expired before the time of validation, bound unset, accepted", case);
+        }
+      }
+      Ok(Err(errs)) => {
+        self.rep.inc("rejected");
+        self.rep.inc("wall_clock_rejected");
+        if iss_true && exp_true {
+          self.rep.violation("rejected-although-all-hold:default-bounds", &format!("rejected ({:?}) although issued in the past and not expired", errs), case);
         }
       }
     }
@@ -732,11 +798,11 @@ fn main() {
     match i % 8 {
       0 => {}
       1 | 2 | 3 => {
-        let w = rng.below(17);
+        let w = rng.below(18);
         mutate_one(&mut rng, &mut p, w);
       }
       4 | 5 => {
-        let (a, b) = (rng.below(17), rng.below(17));
+        let (a, b) = (rng.below(18), rng.below(18));
         mutate_one(&mut rng, &mut p, a);
         mutate_one(&mut rng, &mut p, b);
       }
@@ -749,7 +815,7 @@ fn main() {
         }
       }
       _ => {
-        for w in 0..17 {
+        for w in 0..18 {
           if rng.chance(1, 5) {
             mutate_one(&mut rng, &mut p, w);
           }
@@ -759,6 +825,9 @@ fn main() {
     cx.scenario(&mut rng, &p);
     if i % 16 == 0 {
       cx.two_issuers(&mut rng);
+    }
+    if i % 16 == 8 {
+      cx.wall_clock_defaults(&mut rng);
     }
   }
   // exhaustive U-table (2^5 subsets) x fail-fast x status mode, all S true
